@@ -45,7 +45,25 @@ Structure ==
       !.obs = << Lyr("Boundary", <<>>, <<Geo("RECT", 4, 2)>>), Lyr("met1", <<>>, <<Geo("RECT", 6, 2)>>), Lyr("Met1", <<>>, <<Geo("RECT", 7, 2)>>) >>]),
     [EmptyLib EXCEPT !.macros = << M(Q(2)), [M(Q(4)) EXCEPT !.name = "cell_b", !.obs = <<Lyr("m", <<>>, <<Geo("RECT", 2, 2)>>)>>] >>] }
 
-Libs == SizeCases \cup BadSize \cup ShapeCases \cup BadShape \cup Structure
+\* Random macros (NRand; TLC's RandomElement, reproducible under -seed): every number a random decimal with 0..7 fractional
+\* digits (so roughly a third of the macros hold a value that is not a whole number of database units and must be refused)
+CONSTANT NRand
+\* (operators with a parameter: TLC evaluates a parameterless definition once and would reuse the one random value)
+RD(j) == Dec(RandomElement(BOOLEAN), RandomElement(0..99999), RandomElement(0..4))          \* always a whole number of units
+RBad(j) == Dec(RandomElement(BOOLEAN), (10 * RandomElement(0..9999)) + RandomElement(1..9), RandomElement(5..7))   \* never
+RDpos(j) == Dec(FALSE, RandomElement(1..99999), RandomElement(0..4))
+RGeo(k, n) == [k |-> k, mask |-> <<>>, pts |-> [j \in 1..n |-> <<RD(j), RD(j + n)>>], iterate |-> <<>>]
+\* one macro in three gets exactly one bad coordinate, somewhere
+Spoil(g) == LET j == RandomElement(1..Len(g.pts)) IN [g EXCEPT !.pts[j][RandomElement(1..2)] = RBad(j)]
+MaybeSpoil(g, on) == IF on THEN Spoil(g) ELSE g
+RandMacro(i) ==
+  LET bad == RandomElement(1..9) IN      \* 1..3: which geometry is spoiled; 4..9: none
+  [M(<<RDpos(i), RDpos(i + 1)>>) EXCEPT
+     !.pins = << Pin1("P", <<Prt(<<Lyr("met1", <<>>, <<MaybeSpoil(RGeo("RECT", 2), bad = 1), MaybeSpoil(RGeo("POLYGON", RandomElement(3..5)), bad = 2)>>),
+                                   Lyr("met2", <<RDpos(i + 2)>>, <<RGeo("PATH", RandomElement(2..4))>>)>>)>>) >>,
+     !.obs = << Lyr(RandomElement({"met1", "via1"}), <<>>, <<MaybeSpoil(RGeo("RECT", 2), bad = 3)>>) >>]
+RandLibs == { Lib1(RandMacro(i)) : i \in 1..NRand }
+Libs == SizeCases \cup BadSize \cup ShapeCases \cup BadShape \cup Structure \cup RandLibs
 Init == c \in Libs
 Next == UNCHANGED c
 Spec == Init /\ [][Next]_c
